@@ -720,7 +720,81 @@ def replay(c, prop, path):
     build.cargo_build("agent")
     c.states = c.transitions = 1
     c.count("replay")
+    if "steps" not in r:
+        # an artefact of one of the dedicated scenarios (identity history, status file, ...): the scenario is re-executed
+        c.count("scenario")
+        if util.read_json(path)["signature"].get("kind") == "identity-remembered-across-connections":
+            identity_history(c, prop)
+            return
+        import importlib
+        return importlib.import_module("checks." + prop.lower()).run(c)
     c.count(r["meta"]["id"])
     c.sample({"replayed": r["meta"]["id"]})
     if replay_steps(c, prop, r["steps"], r["meta"]):
         c.violation("replayed scenario still violates %s" % prop, util.read_json(path)["signature"], r)
+
+
+# ------------------------------------------------------------------------------------------------
+# callers whose identity changes between two connections (exec keeps pid and start time, replaces the program)
+
+def identity_history(c, prop):
+    """A helper process connects, exec()s another program, and connects again; rule documents grant by executable path or
+    process name.  Every decision is judged by spec/trace/RbacTrace.tla from (document, the caller's identity AT THAT
+    connection, URL) alone: attribution is per connection, never remembered per pid.  Returns the number of decisions."""
+    import shutil
+    name = "idhist_%s" % prop.lower()
+    sh, sl = os.path.realpath(shutil.which("sh")), os.path.realpath(shutil.which("sleep"))
+    root = caller_of(0, sh, sh)
+
+    def doc(n, ident):
+        return {"defaultAccess": "deny", "mode": "enforce", "id": "idoc%d" % n, "rules": {
+            "privileges": [{"name": "p", "path": "/metadata"}], "roles": [{"name": "r", "privileges": ["p"]}],
+            "identities": [dict({"name": "i"}, **ident)], "roleAssignments": [{"role": "r", "identities": ["i"]}]}}
+    idents = [{"exePath": sh}, {"exePath": sl}, {"processName": os.path.basename(sh)}, {"processName": os.path.basename(sl)},
+              {"userName": "root", "exePath": sh}]
+    if c.tier == "thorough":
+        idents = idents * 3
+    steps, meta = [], {}
+    for vi, ident in enumerate(idents):
+        d, h = doc(vi, ident), "xh%d" % vi
+        steps += [{"op": "set_rules", "ep": "imds", "doc": d},
+                  {"op": "spawn", "name": h, "exe": sh, "args": ["-c", "sleep 1.2; exec sleep 30"]}, {"op": "sleep", "ms": 150}]
+        for phase in ("a", "b", "c"):
+            if phase == "b":
+                steps.append({"op": "sleep", "ms": 1700})
+            rid, cn = "ih%d%s" % (vi, phase), "ihc%d%s" % (vi, phase)
+            steps += [{"op": "helper_exe", "name": h, "tag": rid + ":pre"},
+                      {"op": "connect", "conn": cn, "attr": {"uid": 0, "admin": 1, "dip": "169.254.169.254", "dport": 80, "helper": h}},
+                      {"op": "request", "conn": cn, "id": rid, "method": "GET", "target": "/metadata/instance?n=%s" % rid, "headers": [["Host", "h"]]},
+                      {"op": "helper_exe", "name": h, "tag": rid + ":post"}, {"op": "close", "conn": cn}]
+            meta[rid] = d
+    ev, _, _ = rig.run_rig({"steps": steps, "drain_ms": 200}, name, timeout=600)
+    exe_at = {e["tag"]: e for e in ev if e["e"] == "HelperExe"}
+    resp = {e["id"]: e for e in ev if e["e"] == "Response"}
+    host = {e["id"] for e in ev if e["e"] == "HostRecv" and e.get("id")}
+    rows, changed = [], 0
+    for rid, d in meta.items():
+        pre, post, r = exe_at.get(rid + ":pre"), exe_at.get(rid + ":post"), resp.get(rid)
+        if not pre or not post or not r or not pre["exe"] or pre["exe"] != post["exe"]:
+            continue                      # the exec fell into this exchange: which program was attributed is not determined
+        if rid in host:
+            allowed = True
+        elif r["status"] == 403:
+            allowed = False
+        else:
+            continue
+        changed += pre["exe"] == sl
+        rows.append({"e": "dec", "id": rid, "doc": doc_to_tla(d), "url": url_to_tla("/metadata/instance?n=%s" % rid), "allowed": allowed,
+                     "caller": {"user": root["user"], "groups": root["groups"], "proc": os.path.basename(pre["exe"]), "exe": pre["exe"]}})
+    if len(rows) < len(meta) * 0.6 or not changed or changed == len(rows):
+        raise util.ToolError("identity-history scenario is vacuous: %d of %d decisions, %d after the exec" % (len(rows), len(meta), changed))
+    c.extra["identity_history_decisions"] = len(rows)
+    ok, why, res = validate_trace(c, "RbacTrace", "RbacTrace.cfg", rows, "idhist_%s" % prop, count=0, timeout=300)
+    if not ok:
+        ids = re.findall(r'id \|-> "(ih\d+[abc])"', res.trace_text or "")
+        bad = next((r for r in rows if ids and r["id"] == ids[-1]), rows[0])
+        c.violation("a connection was not judged on what its caller is running at that connection: %s by %s (%s) was %s under %s" % (
+            bad["id"], bad["caller"]["exe"], "after the helper exec()ed" if bad["caller"]["exe"] == sl else "before the exec",
+            "allowed" if bad["allowed"] else "denied", json.dumps(meta[bad["id"]]["rules"]["identities"])),
+            {"kind": "identity-remembered-across-connections"}, {"rows": rows})
+    return len(rows)
